@@ -886,3 +886,86 @@ def rule_dom_c(ctx, F):
                                   ('in the result domain' if rooted else 'an accumulated (squared) cost', 'max_dist as given' if conv == 'identity' else 'squared max_dist'), ev[3].line)
         ctx.check(cmpd, 'R-PRUNE', F.file, F.name, 'final threshold conversion', 'no final `result > max_dist -> infinity` conversion on the DP exit', ev[3].line)
     ctx.sample({'kernel': F.name, 'kind': kind, 'max_step': fmt(F.max_step_expr)[:120] if F.max_step_expr else None})
+
+
+def _triple_pos(e):
+    """e is `inner_dist_fns(...)[k]` (a function selected by position from the inner-distance triple) -> k."""
+    if e[0] == 'idx' and e[2][0] == 'num' and e[1][0] == 'call' and (dotted(e[1][1]) or '').split('.')[-1] == 'inner_dist_fns':
+        return e[2][1]
+    return None
+
+
+def tainted_settings_attrs(m):
+    """Attributes of dtw.DTWSettings that some method overwrites with the Euclidean pruning bound."""
+    mod = m.py('dtaidistance.dtw')
+    out = {}
+    for q, f in mod.funcs.items():
+        if f.cls != 'DTWSettings':
+            continue
+        for s in walk_stmts(f.body):
+            if s.k == 'assign' and s.target[0] == 'attr' and s.target[1] == ('var', 'self'):
+                if any((dotted(c[1]) or '').split('.')[-1] in ('ub_euclidean', 'distance') for c in walk_expr(s.value) if c[0] == 'call'):
+                    out[s.target[2]] = (q, s.line)
+    return out
+
+
+def rule_dom_py(ctx, m, F):
+    """Python distance: thresholds in the internal domain (adj_*), result converted exactly once by position 1 of the
+    inner-distance triple, only_ub returns the result domain, final conversion against the user's threshold."""
+    if F.D is None:
+        ctx.undecided('R-DOM', F.name, 'recurrence facts unavailable')
+        return
+    okD = F.D[0] == 'call' and _triple_pos(F.D[1]) == 0
+    ctx.check(okD, 'R-DOM', F.file, F.name, 'point distance', 'the point distance must be position 0 of innerdistance.inner_dist_fns(...); found %s' % fmt(F.D)[:120], F.inner_line)
+    for nm, e, attr in (('max_step', F.max_step_expr, 'MAXSTEP_I'), ('penalty', F.penalty_expr, 'PEN_I'), ('max_dist', F.max_dist_expr, 'MAXDIST_I')):
+        if e is None:
+            ctx.undecided('R-DOM', '%s %s' % (F.name, nm), 'threshold expression not found')
+            continue
+        a = F.amap(e)
+        ctx.check(a == attr, 'R-DOM', F.file, F.name, '%s conversion' % nm,
+                  'accumulated costs are in the internal domain; the %s used with them must be the converted settings value (adj_%s), found %s'
+                  % (nm, nm, fmt(e)[:100]), F.inner_line)
+    taint = tainted_settings_attrs(m)
+    for ev in F.epilogue.events + F.prologue.events:
+        if ev[0] != 'return' or ev[2] is None:
+            continue
+        val = ev[2]
+        if val == ('num', float('inf')):
+            ctx.held('R-DOM', '%s return inf' % F.name)
+            continue
+        if val[0] == 'call' and (dotted(val[1]) or '').split('.')[-1] in ('distance_fast',):
+            continue
+        reads = [x for x in walk_expr(val) if x[0] == 'idx' and x[1] == ('var', F.arr)]
+        is_ub = any((dotted(c[1]) or '').split('.')[-1] in ('ub_euclidean',) for c in walk_expr(val) if c[0] == 'call')
+        if is_ub and not reads:
+            pos = _triple_pos(val[1]) if val[0] == 'call' else None
+            ctx.check(pos != 2, 'R-DOM', F.file, F.name, 'only_ub return',
+                      'asking for only the upper bound returns inner_val(ub_euclidean(...)): a value of the internal (squared) domain where the '
+                      'Euclidean distance itself is the contract', ev[3].line)
+            continue
+        ok = val[0] == 'call' and _triple_pos(val[1]) == 1 and len(val[2]) == 1
+        inner_roots = ok and any(c[0] == 'call' and _triple_pos(c[1]) in (1, 2) for c in walk_expr(val[2][0]))
+        ctx.check(ok and not inner_roots, 'R-DOM', F.file, F.name, 'result conversion',
+                  'the DP exit must return result_fn(accumulated cost) with exactly one conversion; found %s' % fmt(val)[:160], ev[3].line)
+        if not ok:
+            continue
+        body = val[2][0]
+        cmpd = False
+        for x in walk_expr(body):
+            if x[0] == 'cond':
+                for c in _conj([x[1]]):
+                    if c[0] == 'bin' and c[1] in ('>', '>=') and c[3][0] == 'attr':
+                        cmpd = True
+                        ctx.check(c[1] == '>', 'R-PRUNE', F.file, F.name, 'final threshold comparator',
+                                  'a result equal to max_dist must be returned, only `d > max_dist` becomes infinity', ev[3].line)
+                        at = c[3][2]
+                        ctx.check(at.startswith('adj_'), 'R-DOM', F.file, F.name, 'final threshold domain',
+                                  'the final comparison is made before result_fn, so the threshold must be the internal-domain value; found .%s' % at, ev[3].line)
+                        if at in taint:
+                            ctx.violation('R-DOM', F.file, F.name, 'final threshold provenance .%s' % at,
+                                          'with use_pruning, %s overwrites .%s with inner_val(result(sum)) of the Euclidean bound (a lossy round trip); the final '
+                                          '`d > %s -> inf` conversion then turns a DTW distance equal to the Euclidean distance into infinity. The C engine '
+                                          'compares the result with the user\'s max_dist only' % (taint[at][0], at, at), ev[3].line)
+                        else:
+                            ctx.held('R-DOM', '%s final threshold provenance' % F.name)
+        ctx.check(cmpd, 'R-PRUNE', F.file, F.name, 'final threshold conversion', 'no final `d > max_dist -> infinity` conversion on the DP exit', ev[3].line)
